@@ -97,6 +97,32 @@ def check_partition(du, acc, size, cap, n, extra, zero_rich, rng):
         except Exception as e:
             acc.violation(sigbase + ":repeat-raised:" + exc_site(e), f"{type(e).__name__}: {e}", case)
             return
+    # two partitions in progress at once (the function may hand out lazy iterators): consumed alternately they give
+    # the blocks they give when consumed one after the other
+    if n and rng.random() < 0.3:
+        acc.count("partition.interleaved")
+        n2 = rng.choice([1, 2, cap - 1, cap + 1, rng.randint(1, 2 * cap + 1)])
+        ids2 = [gen_identifier(rng, size, zero_rich) for _ in range(max(1, n2))]
+        try:
+            want2 = list(du.partition_identifiers_to_blocks(list(ids2), cap, size, block_size_bytes=block_size))
+            it1 = iter(du.partition_identifiers_to_blocks(list(ids), cap, size, block_size_bytes=block_size))
+            it2 = iter(du.partition_identifiers_to_blocks(list(ids2), cap, size, block_size_bytes=block_size))
+            got1, got2 = [], []
+            live = [(it1, got1), (it2, got2)]
+            while live:
+                for pair in list(live):
+                    try:
+                        pair[1].append(next(pair[0]))
+                    except StopIteration:
+                        live.remove(pair)
+            if [bytes(x) for x in got1] != [bytes(x) for x in blocks] or [bytes(x) for x in got2] != [bytes(x) for x in want2]:
+                acc.violation(sigbase + ":interleaved-partitions-differ",
+                              f"two partitions consumed alternately ({n} and {len(ids2)} identifiers, same block size) give "
+                              f"other blocks than the same partitions consumed one after the other", dict(case, ids2=ids2))
+                return
+        except Exception as e:
+            acc.violation(sigbase + ":interleaved-raised:" + exc_site(e), f"{type(e).__name__}: {e}", case)
+            return
     # identifiers / blocks handed over in caller-owned bytearrays: refusing the type is fine, a wrong answer or a
     # changed buffer is not
     if n and rng.random() < 0.15:
@@ -242,6 +268,10 @@ def check_database_conversion(du, bu, acc, rng):
         for _ in range(rng.randint(1, 5)):
             if fmt == "utf8":
                 s = "".join(rng.choice("abcXYZ019éß中") for _ in range(rng.randint(1, 6)))
+                if rng.random() < 0.25:   # text that starts or ends with characters a codec might treat specially
+                    s = rng.choice(["\ufeff", "\u200b", "\ufffe", " ", "\x00", "\u2028"]) + s
+                elif rng.random() < 0.1:
+                    s = s + rng.choice(["\ufeff", " ", "\x00", "\n"])
                 ids.append(s.encode("utf8").hex())
             else:
                 h = rng.randbytes(rng.randint(1, 12)).hex()
